@@ -71,6 +71,11 @@ struct K6 : Tracked { explicit K6(int id) : Tracked(id) {}
 struct K7 : Tracked { explicit K7(int id) : Tracked(id) {}
 	template <typename ...A> void operator() (A && ...) const { entered(this, sizeof...(A) == 0 ? 1 : 9, 0, true); } };
 
+// a void(int) listener that enqueues one more (int) event every time it runs, at most three per script (HeterEventQueue only)
+static int g_listenerEnq;
+static void listenerEnqueue();
+struct K8 : Tracked { explicit K8(int id) : Tracked(id) {} void operator() (int v) const { entered(this, 2, v, true); if(g_listenerEnq < 3) { ++g_listenerEnq; listenerEnqueue(); } } };
+
 // ---- predicates: verdict = "uid is odd"
 static bool asked(int proto, int uid, bool ok) { evx("qb", proto, 0, ok ? 1 : 0, 0, uid); bool r = uid % 2 == 1; evx("qe", 0, 0, 0, r ? 1 : 0, 0); return r; }
 struct S2 { bool operator() (int v) const { return asked(2, v, true); } };
@@ -180,6 +185,9 @@ static void add(const char * e, int how, int shape, int beforeNo)
 	case 4: h = addCb(how, K4(id), before); break;
 	case 5: h = addCb(how, K5(id), before); break;
 	case 6: h = addCb(how, K6(id), before); break;
+#if W_KIND == 2
+	case 8: h = addCb(how, K8(id), before); break;
+#endif
 	default: h = addCb(how, K7(id), before); break;
 	}
 	H.push_back(h);
@@ -223,6 +231,7 @@ static void enqueue(int shape)
 	}
 	evx("nq", 0, shape, 0, 0, uid);
 }
+static void listenerEnqueue() { enqueue(2); }
 static void process(int mode, int shape)
 {
 	evx("pb", 0, mode, shape, 0, 0);
@@ -238,6 +247,9 @@ static void process(int mode, int shape)
 	}
 	evx("pe", 0, mode, 0, r ? 1 : 0, 0);
 }
+#endif
+#if W_KIND != 2
+static void listenerEnqueue() {}
 #endif
 static bool removeHandle(int h)
 {
@@ -301,7 +313,7 @@ int main(int argc, char ** argv)
 		armWatchdog(20);
 		std::memset(g_storage, W_FILL, sizeof(g_storage));
 		obj = new (g_storage) Obj();
-		g_uid = 0;
+		g_uid = 0; g_listenerEnq = 0;
 		bool pi = false;
 		for(const Op & op : script) { step(op); if(op.k == "pi" || op.k == "il") pi = true; }
 		epilogue();
